@@ -35,6 +35,8 @@ type v11Source struct {
 	overlap    string
 	frame      int
 	doneCh     chan struct{} // one token per processed block
+	pulses     bool          // blocks of 24 samples with a pulse on channel 0 (so that triggers fire)
+	keepPub    bool          // keep the processors' publish channels (C17 drains them like the ZMQ goroutines do)
 	zeroBased  bool          // channel numbers start at 0 (generic source default) instead of 1
 }
 
@@ -68,9 +70,11 @@ func (s *v11Source) Sample() error {
 
 func (s *v11Source) PrepareRun(npre, nsamp int) error {
 	err := s.AnySource.PrepareRun(npre, nsamp)
-	for _, dsp := range s.processors {
-		dsp.PubRecordsChan = nil
-		dsp.PubSummariesChan = nil
+	if !s.keepPub {
+		for _, dsp := range s.processors {
+			dsp.PubRecordsChan = nil
+			dsp.PubSummariesChan = nil
+		}
 	}
 	return err
 }
@@ -137,14 +141,25 @@ func (s *v11Source) ArchiveDataBlock(n int, f *os.File, name string) error {
 
 func (s *v11Source) block() *dataBlock {
 	n := 8
+	if s.pulses {
+		n = 24
+	}
 	b := new(dataBlock)
 	b.segments = make([]DataSegment, s.nchan)
+	now := time.Now()
 	for ch := range b.segments {
 		d := make([]RawType, n)
 		for i := range d {
 			d[i] = 1000
+			if s.pulses && ch == 0 && i >= 6 {
+				d[i] = RawType(1000 + 400 - 30*(i-6))
+			}
 		}
-		b.segments[ch] = DataSegment{rawData: d, framesPerSample: 1, firstFrameIndex: FrameIndex(s.frame), firstTime: vT0.Add(time.Duration(s.frame) * vPeriod), framePeriod: vPeriod}
+		ft := vT0.Add(time.Duration(s.frame) * vPeriod)
+		if s.pulses {
+			ft = now // raw-block archiving ignores blocks older than the request; one stamp for all channels
+		}
+		b.segments[ch] = DataSegment{rawData: d, framesPerSample: 1, firstFrameIndex: FrameIndex(s.frame), firstTime: ft, framePeriod: vPeriod}
 	}
 	b.nSamp = n
 	s.frame += n
@@ -171,7 +186,7 @@ func (s *v11Source) StartRun() error {
 					close(next)
 					return
 				}
-				vhook.PS(913, 2)
+				vhook.PSC(913, []interface{}{abort, s.want}, []bool{false, false}, false)
 				select {
 				case <-abort:
 					vhook.C(0)
